@@ -1949,6 +1949,18 @@ class TLSConnection(TLSRecordLayer):
 
             if cipherSuite in CipherSuite.dhAllSuites:
                 self.dhGroupSize = numBits(serverKeyExchange.dh_p)
+                if self.dhGroupSize < settings.minKeySize:
+                    for result in self._sendError(
+                            AlertDescription.insufficient_security,
+                            "Server's DH prime too small: %d" %
+                            self.dhGroupSize):
+                        yield result
+                if self.dhGroupSize > settings.maxKeySize:
+                    for result in self._sendError(
+                            AlertDescription.insufficient_security,
+                            "Server's DH prime too large: %d" %
+                            self.dhGroupSize):
+                        yield result
             if cipherSuite in CipherSuite.ecdhAllSuites:
                 self.ecdhCurve = serverKeyExchange.named_curve
 
